@@ -6,9 +6,12 @@ EXTENDS TlvStream
 CONSTANTS L
 Alphabet == {0, 1, 2, 3, 252, 253, 254, 255}
 
-Init == \E n \in 0..L : \E bytes \in [1..n -> Alphabet] : \E p \in BOOLEAN :
-          /\ fed = Runs(bytes)
-          /\ m = Machine(Runs(bytes), TRUE, p)
+\* every string of length n <= L, built as a 4-byte head and a tail (TLC does not enumerate sets above 10^6)
+Min(a, b) == IF a < b THEN a ELSE b
+Init == \E n \in 0..L : \E hd \in [1..Min(n, 4) -> Alphabet] : \E tl \in [1..(n - Min(n, 4)) -> Alphabet] :
+        \E p \in BOOLEAN :
+          /\ fed = Runs(hd \o tl)
+          /\ m = Machine(Runs(hd \o tl), TRUE, p)
 Next == MStep
 Spec == Init /\ [][Next]_vars
 =============================================================================
